@@ -15,6 +15,7 @@ RELATED = {
     "C05": [("C06", None)],                                                    # every target goes through the same allocator
     "C10": [("C13", ["C13.R3"])],                                              # a shrunk relocation must still fit its (smaller) field
     "C11": [("C13", None), ("C10", None)],                                     # relaxation and range gates decide what a reference finally resolves to
+    "C13": [("C10", ["C10.R2", "C10.R3", "C10.R5"])],                          # the shrunk relocation scatters the new, smaller offset
     "C15": [("C02", ["C02.R2"])],                                              # forward references are patched with replace_by: every slot must be replaced
     "C16": [("C02", ["C02.R2"])],
     "C21": [("C20", None)],                                                    # the binary format is LEB128 all over
